@@ -44,6 +44,25 @@ def replay(pid, path):
             s.seed, s.quick, s.evaluations, s.nontrivial = int(os.environ.get('VERIF_SEED', '1')), True, 0, set()
             print('concurrent contexts under the race detector:', raceprops.run(s))
             bad += s.v
+        elif rep.get('fault') is not None and rep.get('target') is not None and rep.get('grammar_text') is not None:
+            # C19: the same generation over a pre-existing file; exit 0 with a complete file, or a failure with the file untouched
+            args, ext = next((a, e) for (tn, a, e) in cliprops.TARGETS if tn == rep['target'])
+            src, out = os.path.join(work, 'in.y'), os.path.join(work, 'out' + ext)
+            open(src, 'w').write(rep['grammar_text'])
+            pre = '// PRE-EXISTING FILE\n' + 'keep me\n' * 4000
+            open(out, 'w').write(pre)
+            try:
+                r = subprocess.run([os.path.join(bindir, 'yaccgo')] + args + [src, out], capture_output=True, text=True, timeout=30)
+                rc = r.returncode
+            except subprocess.TimeoutExpired:
+                rc = None
+            after = open(out).read() if os.path.exists(out) else None
+            epi = rep['grammar_text'].split('%%', 2)[2] if rep['grammar_text'].count('%%') >= 2 else ''
+            print('yaccgo %s: exit %s, file afterwards: %s' % (' '.join(args), rc, 'untouched' if after == pre else ('removed' if after is None else '%d bytes' % len(after))))
+            if rc == 0 and (after is None or after == pre or not after.rstrip('\n').endswith(epi.rstrip('\n'))):
+                bad.append('exit 0 without a complete output')
+            elif rc != 0 and after != pre:
+                bad.append('failure (exit %s) but the pre-existing file was changed' % rc)
         elif rep.get('grammar_text') is not None:
             t = rep['grammar_text']
             p = os.path.join(work, 'g.y')
